@@ -27,7 +27,7 @@ func c20SparsePatterns(g *G, n int) [][]byte {
 	}
 	return [][]byte{
 		mk(), mk(0), mk(n - 1), mk(7), mk(8), mk(n - 8), mk(n - 9), mk(63), mk(64), mk(n - 64), mk(n - 65),
-		mk(n / 2), mk(n&^7 - 1), mk(n &^ 7), mk(n&^63 - 1), mk(n &^ 63), mk(0, n - 1), mk(n/2, n/2 + 1), mk(g.Intn(n)), mk(g.Intn(n), g.Intn(n)),
+		mk(n / 2), mk(n&^7 - 1), mk(n &^ 7), mk(n&^63 - 1), mk(n &^ 63), mk(0, n-1), mk(n/2, n/2+1), mk(g.Intn(n)), mk(g.Intn(n), g.Intn(n)),
 	}
 }
 
